@@ -302,7 +302,7 @@ class Main(Suite):
     name = "main"
     go_cmd = "c50"
     coq_imports = "From GoGit Require Import Model.Archive Spec.GitArchive."
-    quick_n = 220
+    quick_n = 200
     thorough_n = 4000
     coq_chunk = 150
 
@@ -458,6 +458,9 @@ class Main(Suite):
                 continue
             ids.append(c["id"])
             exprs.append("c50_git %s" % self.coq_args(c))
+        if ctx.tier == "quick":
+            step = max(1, len(ids) // 100)                    # a spread sample; the thorough tier takes every case
+            ids, exprs = ids[::step], exprs[::step]
         outs = ctx.coq_eval(self.coq_imports, exprs, chunk=self.coq_chunk)
         bad = 0
         for i, o in zip(ids, outs):
